@@ -270,7 +270,7 @@ def r7_2(ctx: Ctx) -> RuleResult:
         logical = any(
             any((isinstance_classes(t) or ("", []))[1] == ["FunctionExtension"] and b for t, b in conds)
             and any("return_type" in ast.unparse(t) and "VALUE" in ast.unparse(t)
-                    and ((isinstance(t, ast.Compare) and isinstance(t.ops[0], ast.NotEq)) == b) for t, b in conds)
+                    and isinstance(t, ast.Compare) and isinstance(t.ops[0], ast.Eq) and not b for t, b in conds)
             for r, conds in raises
         )
         if nonsing:
@@ -377,70 +377,113 @@ def r7_4(ctx: Ctx) -> RuleResult:
     return rr
 
 
+def _range_events(test: ast.expr, branch: bool) -> List[str]:
+    """Interval facts a comparison with the environment's limits establishes on one branch:
+    `ge@v` (v >= min_int_index), `le@v` (v <= max_int_index); `v is None` establishes both
+    (an absent slice bound needs no check)."""
+    if not (isinstance(test, ast.Compare) and len(test.ops) == 1):
+        return []
+    left, op, right = test.left, test.ops[0], test.comparators[0]
+    lp, rp = path_of(left) or "", path_of(right) or ""
+    if isinstance(op, (ast.Is, ast.IsNot)) and isinstance(right, ast.Constant) and right.value is None and lp:
+        if isinstance(op, ast.Is) == branch:
+            return [f"ge@{lp}", f"le@{lp}"]
+        return []
+    lo_l, hi_l = lp.endswith("min_int_index"), lp.endswith("max_int_index")
+    lo_r, hi_r = rp.endswith("min_int_index"), rp.endswith("max_int_index")
+    # normalise to `v OP limit`
+    flip = {ast.Lt: ast.Gt, ast.Gt: ast.Lt, ast.LtE: ast.GtE, ast.GtE: ast.LtE}
+    if (lo_l or hi_l) and rp and type(op) in flip:
+        v, o, lo, hi = rp, flip[type(op)], lo_l, hi_l
+    elif (lo_r or hi_r) and lp and type(op) in flip:
+        v, o, lo, hi = lp, type(op), lo_r, hi_r
+    else:
+        return []
+    if lo and ((o is ast.Lt and not branch) or (o is ast.GtE and branch)):
+        return [f"ge@{v}"]
+    if hi and ((o is ast.Gt and not branch) or (o is ast.LtE and branch)):
+        return [f"le@{v}"]
+    return []
+
+
+def _range_summary(helper: FuncInfo) -> Tuple[Set[str], bool]:
+    """(parameters, all-varargs?) that are within the limits whenever `helper` returns normally."""
+    flow = must_flow(helper.node, refine_events=_range_events)
+    params = [a.arg for a in helper.node.args.args][1:]
+    exits = [st for kind, _n, st in flow.exits if st is not None]
+    good = {p for p in params if exits and all({f"ge@{p}", f"le@{p}"} <= st for st in exits)}
+    var_ok = False
+    va = helper.node.args.vararg
+    if va is not None:
+        loops = [n for n in ast.walk(helper.node) if isinstance(n, ast.For) and path_of(n.iter) == va.arg]
+        for lp in loops:
+            v = path_of(lp.target)
+            backs = [st for st in flow.back.get(id(lp), []) if st is not None]
+            no_break = not any(isinstance(n, ast.Break) for n in ast.walk(lp))
+            if v and backs and no_break and all({f"ge@{v}", f"le@{v}"} <= st for st in backs):
+                var_ok = True
+    return good, var_ok
+
+
 def r7_5(ctx: Ctx) -> RuleResult:
     rr = RuleResult("R7.5", "index and slice bounds are range-checked against the environment's limits", floor=4)
-    for cname, params in (("IndexSelector", ["index"]), ("SliceSelector", ["start", "stop", "step"])):
+    for cname, params, field in (("IndexSelector", ["index"], "self.index"), ("SliceSelector", ["start", "stop", "step"], "self.slice")):
         cls = ctx.repo.require_class(f"jsonpath.selectors.{cname}")
         init = cls.methods.get("__init__")
         if init is None:
             raise AnalysisError(f"{cname}.__init__ not found")
-        for p in params:
-            # find the function in which `p` is range-tested: __init__ itself or a helper it is passed to
-            sites: List[Tuple[FuncInfo, str]] = [(init, p)]
-            for c in calls(init.node):
-                if isinstance(c.func, ast.Attribute) and path_of(c.func.value) == "self":
-                    helper = ctx.repo.find_method(cls, c.func.attr)
-                    if helper is None:
-                        continue
-                    for i, a in enumerate(c.args):
-                        if path_of(a) == p:
-                            if helper.node.args.vararg is not None:
-                                # def _check_range(self, *indices): for i in indices
-                                for lp in [n for n in ast.walk(helper.node) if isinstance(n, ast.For)]:
-                                    if path_of(lp.iter) == helper.node.args.vararg.arg:
-                                        sites.append((helper, path_of(lp.target) or ""))
-                            else:
-                                hp = [x.arg for x in helper.node.args.args][1:]
-                                if i < len(hp):
-                                    sites.append((helper, hp[i]))
-            ok = False
-            for fn, var in sites:
-                for r in [n for n in ast.walk(fn.node) if isinstance(n, ast.Raise)]:
-                    if _raise_class(ctx, fn, r) != "JSONPathIndexError":
-                        continue
-                    # all tests that decide this raise (including `or` alternatives)
-                    tests = []
-                    from sa.flow import parent_map
+        summaries: Dict[str, Tuple[Set[str], bool, FuncInfo]] = {}
 
-                    parents = parent_map(fn.node)
-                    cur: Optional[ast.AST] = r
-                    while cur is not None:
-                        cur = parents.get(id(cur))
-                        if isinstance(cur, ast.If):
-                            tests.append(cur.test)
-                    txt = " ".join(ast.unparse(t) for t in tests)
-                    reads_min = "min_int_index" in txt and ("env.min_int_index" in txt)
-                    reads_max = "max_int_index" in txt and ("env.max_int_index" in txt)
-                    mentions = any(isinstance(n, ast.Name) and n.id == var for t in tests for n in ast.walk(t))
-                    if reads_min and reads_max and mentions:
-                        ok = True
-            # the check precedes the field store
-            if ok:
-                rr.ok(init.loc(), f"{cname}: `{p}` is compared with env.min_int_index and env.max_int_index")
-            else:
-                rr.bad(init, init.node, f"{cname}: `{p}` is not range-checked against the environment's "
-                       "min_int_index / max_int_index", construct=f"{cname}.{p} range check")
-        # ordering: raise before the selector's fields are stored
-        flow = must_flow(init.node, expr_events=lambda e: (
-            ["checked@"] if isinstance(e, ast.Call) and callee_name(e) in ("_check_range",) else []),
-            refine_events=lambda t, b: (["checked@"] if ("min_int_index" in ast.unparse(t) and not b) else []))
-        for n in ast.walk(init.node):
-            if isinstance(n, ast.Assign) and any(path_of(t) in ("self.index", "self.slice") for t in n.targets):
-                st = flow.pre.get(id(n)) or frozenset()
-                if "checked@" in st:
-                    rr.ok(init.loc(n), f"{cname}: `{short(n)}` after the range check")
+        def call_events(e: ast.expr) -> List[str]:
+            if not (isinstance(e, ast.Call) and isinstance(e.func, ast.Attribute) and path_of(e.func.value) == "self"):
+                return []
+            helper = ctx.repo.find_method(cls, e.func.attr)
+            if helper is None or helper.node is init.node:
+                return []
+            if helper.qualname not in summaries:
+                good, var_ok = _range_summary(helper)
+                summaries[helper.qualname] = (good, var_ok, helper)
+            good, var_ok, _h = summaries[helper.qualname]
+            hp = [a.arg for a in helper.node.args.args][1:]
+            out: List[str] = []
+            for i, a in enumerate(e.args):
+                v = path_of(a)
+                if not v:
+                    continue
+                if (i < len(hp) and hp[i] in good) or (i >= len(hp) and var_ok):
+                    out += [f"ge@{v}", f"le@{v}"]
+            for k in e.keywords:
+                v = path_of(k.value)
+                if v and k.arg in good:
+                    out += [f"ge@{v}", f"le@{v}"]
+            return out
+
+        flow = must_flow(init.node, expr_events=call_events, refine_events=_range_events)
+        stores = [n for n in ast.walk(init.node) if isinstance(n, ast.Assign) and any(path_of(t) == field for t in n.targets)]
+        if not stores:
+            raise AnalysisError(f"R7.5: {cname}.__init__ no longer stores {field}")
+        for fn in [init] + [h for _g, _v, h in summaries.values()]:
+            for r in [x for x in ast.walk(fn.node) if isinstance(x, ast.Raise)]:
+                if any("_int_index" in ast.unparse(t) for t, _b in path_conditions(fn.node, r)):
+                    rc = _raise_class(ctx, fn, r)
+                    if rc == "JSONPathIndexError":
+                        rr.ok(fn.loc(r), f"{fn.name}: an out-of-range value raises JSONPathIndexError")
+                    else:
+                        rr.bad(fn, r, f"an out-of-range index must raise JSONPathIndexError, not {rc}", construct=short(r))
+        for n in stores:
+            st = flow.pre.get(id(n)) or frozenset()
+            used = [x.id for x in ast.walk(n.value) if isinstance(x, ast.Name) and x.id in params]
+            if sorted(set(used)) != sorted(params):
+                raise AnalysisError(f"R7.5: `{short(n)}` does not store the constructor's {params}")
+            for p in params:
+                lacking = [w for w, f in (("min_int_index", f"ge@{p}"), ("max_int_index", f"le@{p}")) if f not in st]
+                if not lacking:
+                    rr.ok(init.loc(n), f"{cname}: `{p}` is within env.min_int_index .. env.max_int_index when `{short(n, 40)}` runs")
                 else:
-                    rr.bad(init, n, f"{cname} stores the value before it has been range-checked", construct=short(n))
+                    rr.bad(init, n, f"{cname}: `{p}` can reach `{short(n, 50)}` without having been compared with the "
+                           f"environment's {' and '.join(lacking)} on every path: an out-of-range "
+                           "index is accepted instead of raising JSONPathIndexError",
+                           construct=f"{cname}.{p} range check ({', '.join(lacking)})")
     return rr
 
 
